@@ -20,15 +20,16 @@ def make_opcode_sized_list() -> list[tuple[str, int]]:
 
 
 def make_opcode_variable_list() -> list[tuple[str, int, Callable[..., Any], Callable[..., Any]]]:
-    def make_variable_decoder(struct_data: str) -> Callable[[bytes, int], tuple[int, int]]:
+    def make_variable_decoder(struct_data: str) -> Callable[[bytes, int], tuple[int | None, int]]:
         struct_size = struct.calcsize(struct_data)
 
-        def decode_OP_PUSHDATA(script: bytes, pc: int) -> tuple[int, int]:
+        def decode_OP_PUSHDATA(script: bytes, pc: int) -> tuple[int | None, int]:
             pc += 1
             try:
                 size = struct.unpack(struct_data, script[pc : pc + struct_size])[0]
             except Exception:
-                return 0, pc
+                # the script ends inside the length field
+                return None, pc
             pc += struct_size
             return size, pc
 
